@@ -90,10 +90,8 @@ func loadTable() (*table, string, error) {
 	if err := json.Unmarshal(b, t); err != nil {
 		return nil, p, err
 	}
-	for _, c := range t.Compound {
-		if os.Getenv("C11_MULTI_ELEMENT_COMPOUNDS") == "" { // experiment switch: exercise the compounds with several elements
-			compoundMethods[c.Kind+"."+c.Method] = true
-		}
+	for _, c := range t.Compound { // empty today: every variadic method is exercised with several elements
+		compoundMethods[c.Kind+"."+c.Method] = true
 	}
 	t.byName = map[string]*tentry{}
 	for i := range t.Entries {
@@ -772,7 +770,7 @@ func childLost(o vhlib.Opts, name string, tab *table, out *childOut) {
 		}
 	}
 	r := vhlib.NewRng(o.Seed*31 + 5)
-	n, reps := 14, 60
+	n, reps := 20, 120
 	if o.Thorough() {
 		n, reps = 60, 200
 	}
